@@ -1,6 +1,6 @@
 #!/bin/sh
 # usage: tools/try_seed.sh <patch.diff> [props...]  : apply to /repo, run checks, revert
-patch="$1"; shift
+patch=$(realpath "$1"); shift
 props="$@"
 [ -z "$props" ] && props="C01 C02 C03 C04 C05 C06 C07 C08 C09 C10 C11 C14 C17"
 cd /repo || exit 2
